@@ -174,8 +174,10 @@ def generate(rng, tier):
         out.append(gen_inf(rng, tier))
     for _ in range(n * 4 // 5):
         out.append(gen_sv(rng, tier))
-    # fixed small shapes: power-of-two cone sizes 1, 2, 4 with a node of full sensitivity (top bit of the count is exercised)
-    for m in (1, 2, 3, 4, 5, 6):
+    # fixed small shapes: power-of-two cone sizes 1, 2, 4 with a node of full sensitivity (top bit of the count is exercised);
+    # they go first (largest first) so that the expensive shards start early
+    rand_cases, out = out, []
+    for m in (6, 5, 4, 3, 2, 1):
         ins = [f"i{j}" for j in range(m)]
         nodes = [[i, "input", False, []] for i in ins]
         nodes.append(["g", "xor" if m > 1 else "not", True, ins])
@@ -186,7 +188,7 @@ def generate(rng, tier):
         if tier != "quick" or m != 6:
             out.append({"kind": "sv", "circuit": {"name": "top", "nodes": nodes2, "bbs": []}, "n": "g"})
         out.append({"kind": "inf", "circuit": {"name": "top", "nodes": nodes2, "bbs": []}, "n": "g"})
-    return out
+    return out + rand_cases
 
 
 # ---------------------------------------------------------------- implementation driver
